@@ -146,8 +146,8 @@ class Translation:
         if key not in self.site:
             raise OutOfModel("reference not reached by the translator's own walk")
         mod, types, attr = self.site[key]
-        if not types:
-            raise ModuleLevelReference("reference outside any type definition")
+        # types == (): a reference in a module-level attribute; since fix 99e8f3d it is resolved with
+        # current_scope = the module's scope, which is what Site m [] None means in the model
         return "(Site %s %s %s)" % (cstr(mod), clist(cstr(t) for t in types), copt(cstr(attr) if attr else None))
 
     def cword(self, w):
@@ -245,6 +245,7 @@ _KINDS = [
     (re.compile(r"^No candidate for '(.*)'$"), "KMissing"),
     (re.compile(r"^Cannot access member of array '(.*)'$"), "KArray"),
     (re.compile(r"^Cannot access member of noncomposite field '(.*)'$"), "KNoncomposite"),
+    (re.compile(r"^'(.*)' is an imported module, not a field, type, or value\.$"), "KModule"),
 ]
 
 
